@@ -275,7 +275,7 @@ def prefetch_clause(res, tier):
     cfgs = [dict(entry='prefetch', n=n, w=2, b=2, backend='t', profile=True) for n in (2, 3)]
     cfgs += [dict(entry='prefetch', n=3, w=1, b=2, backend='t', profile=True),
              dict(entry='prefetch', n=3, w=2, b=2, backend='t', profile=True, fail_fn={1: 'ValueError'})]
-    _e2.run_matrix('C20', 'oracle_profile', [(c, 'P', None) for c in cfgs], res,
+    _e2.run_matrix('C20', 'oracle_profile', [(c, 'D', None) for c in cfgs], res,
                    'E2: ProfilingDataset(ds.map(f).prefetch(w, b)), all schedules')
 
 
